@@ -35,7 +35,10 @@ def unbroadcast(array):
         The reshaped array.
     """
 
-    if array.ndim == 0 or not hasattr(array, 'strides'):
+    # NOTE: an empty array has nothing to unbroadcast, and giving its
+    # broadcast (stride 0) axes a length of 1 would expose memory that the
+    # array does not cover
+    if array.ndim == 0 or array.size == 0 or not hasattr(array, 'strides'):
         return array
 
     new_shape = np.where(np.array(array.strides) == 0, 1, array.shape)
